@@ -167,6 +167,7 @@ PROPS['C08'] = dict(
 )
 PROPS['C09'] = dict(
     trace=TS, mc=dict(quick=[mc('MC_BitStr', 'MC_BitStr_q.cfg', expect_min_distinct=40000)], thorough=[mc('MC_BitStr', 'MC_BitStr.cfg', expect_min_distinct=1500000)]), need_kinds=['bscmp', 'bsupto'],
+    builds=['plain', 'checkptr'],   # StrCmpUpto builds a slice header through unsafe
     rule='bscmp: groups of 8 related ranges (prefixes of every bit length, one-bit differences, extensions, aligned/unaligned ends, empty ranges, unaligned from) over strings of 0..20 bytes crossing the 8-byte switch, Len of each and Cmp of ALL ordered pairs; '
          'every (from,to) of strings of <= 3 bytes; bsupto: one encoded range with 12 plain strings (empty, the payload, byte prefixes, one byte / much longer, garbage in masked-out bits, one flipped bit): CmpUpto, StrCmpUpto and StrCmpUpto after a call with an empty string; '
          'judged against lexicographic order of the bit strings (Strings!LexCmp); distinct = distinct inputs',
@@ -205,6 +206,7 @@ PROPS['C07'] = dict(
 
 PROPS['C20'] = dict(
     trace=dict(module='Trace_SizeOf', cfg='Trace_SizeOf.cfg'), mc=dict(quick=[], thorough=[]), need_kinds=['size'],
+    builds=['plain', 'checkptr'],   # size/sizeof.go converts pointers through unsafe: also judged in a build with checkptr instrumentation (what -race builds use)
     gen=dict(quick=[bfs('Gen_SizeOf', 'Gen_SizeOf.cfg', 'size', shards=2)], thorough=[bfs('Gen_SizeOf', 'Gen_SizeOf_t.cfg', 'size', shards=4)]),
     rule='a case is a typed value tree (type + content description) rebuilt with package reflect: every scalar kind (incl. int, uint, uintptr, complex) at top level, in a slice, an array, behind a nil and a non-nil pointer, '
          'in an interface-typed struct field and as a map value; seeded random trees of depth 1..4 (thorough 6): nested slices/arrays/maps/pointers/interfaces/structs, all-scalar structs with mixed field widths, nil and zero-length containers, '
